@@ -20,7 +20,7 @@ RULE = ('inputs: every truncation of generated valid messages (exhaustive per me
         'rest-of-buffer+-1, hostile signatures (zero-size array elements a() a{} a(()()), nesting to 254, unterminated '
         'containers, trailing a, unknown codes, empty variant signature) in the SIGNATURE header field with arbitrary body '
         'bytes and inside body variants, well-formed messages whose UNIX_FDS header claims up to 2^32-1 descriptors, and '
-        'raw random bytes; entry points parseMessage, unmarshal and dataReceived of a '
+        'raw random bytes, and well-formed bodies nested up to 28 levels deep (written by the library itself); entry points parseMessage, unmarshal and dataReceived of a '
         'pre-authenticated protocol. oracle: the call returns or raises an Exception within %d+%d*n traced interpreter '
         'lines inside txdbus (sys.settrace step budget, no wall clock), a returned value has <= %d+%d*n nodes, and a '
         'fixed valid message still parses afterwards. Non-trivial = the input differs from the valid message it was '
@@ -272,6 +272,27 @@ def enum_fd_count(tier):
                     yield {'kind': 'raw', 'hex': raw.hex(), 'fd_count': n}
 
 
+def enum_deep(tier):
+    """Well-formed but deeply nested bodies (arrays in structs in arrays ..., one element per level, up to the nesting
+    limit), with innermost element types that contain an empty struct / dict entry (which the library accepts) or not:
+    decoding work must grow with the bytes, not with 2^depth."""
+    from txdbus import marshal as M
+    for k in (4, 10, 16, 22, 28):
+        for inner, leaf in (('y()', (1, ())), ('y', (1,)), ('()y', ((), 1)), ('ys', (1, 'x'))):
+            sig = 'a(' * k + inner + ')' * k
+            v = leaf
+            for _ in range(k):
+                v = ([v],)
+            for little in (True, False):
+                try:
+                    n, chunks = M.marshal(sig, [v[0]], 0, little)      # the library itself writes the (valid) body
+                except Exception:
+                    continue
+                body = b''.join(chunks)
+                raw = R.encode_message(1, 3, {1: '/a', 3: 'M'}, little=little, extra_fields=[(8, 'g', sig)], raw_body=body)
+                yield {'kind': 'raw', 'hex': raw.hex(), 'depth': k}
+
+
 def _fix_fields(case):
     if case['kind'] == 'hostile_sig':
         case = dict(case)
@@ -389,6 +410,9 @@ SUBCHECKS = [
                              % len(HOSTILE_SIGS)),
     Subcheck('length_sweep', run, classify_, enumerate=enum_length_sweep, shards={'quick': 4, 'thorough': 4},
              exhaustive_note='every length field of 2 fixed messages x 2 byte orders x 34 values around 2^32 and 2^31'),
+    Subcheck('deep_valid', run, classify_, enumerate=enum_deep, shards={'quick': 4, 'thorough': 4},
+             exhaustive_note='valid bodies nested 4..28 levels deep (array of struct of array ...) x 4 innermost element types '
+                             '(with and without an empty struct) x 2 byte orders, judged by the step budget'),
     Subcheck('fd_count', run, classify_, enumerate=enum_fd_count, shards={'quick': 4, 'thorough': 4},
              exhaustive_note='4 message types x 5 bodies (with and without h arguments) x 10 claimed descriptor counts up '
                              'to 2^32-1 x 2 byte orders'),
